@@ -206,6 +206,26 @@ fn ranges<W: Write>(r: &mut Rng, n: usize, out: &mut W) -> usize {
         // mostly 1-3 alternatives; now and then many (size-dependent fast paths)
         let width = |r: &mut Rng| match r.below(32) { 0 => 20, 1 => 16, 2 | 3 => 9, 4..=6 => 5, _ => 3 };
         let wa = width(r);
+        if r.chance(1, 12) {
+            // B is A up to build metadata (and sometimes one bound kind): equal as sets of versions, whatever the builds
+            let na = if wa > 5 { wa - r.below(3) } else { 1 + r.below(wa) };
+            let ia: Vec<(VerifSide, VerifSide)> = (0..na).map(|_| interval(r, &pool)).collect();
+            let rebuild = |r: &mut Rng, s: &VerifSide| -> VerifSide {
+                s.as_ref().map(|(inc, v)| {
+                    let mut w = v.clone();
+                    w.build = match r.below(4) {
+                        0 => vec![],
+                        1 => vec![Identifier::AlphaNumeric("linux".into())],
+                        2 => vec![Identifier::AlphaNumeric("darwin".into()), Identifier::Numeric(1)],
+                        _ => vec![Identifier::Numeric(0)],
+                    };
+                    (*inc, w)
+                })
+            };
+            let ib: Vec<(VerifSide, VerifSide)> = ia.iter().map(|(lo, up)| (rebuild(r, lo), rebuild(r, up))).collect();
+            writeln!(out, "{}", json!({"op":"pair","A":bounds_to_json(&ia),"B":bounds_to_json(&ib)})).unwrap();
+            continue;
+        }
         let a = range_struct(r, &pool, wa);
         let wb = width(r);
         let b = if r.chance(1, 3) { range_struct(r, &pool, 1) } else { range_struct(r, &pool, wb) };
